@@ -26,7 +26,7 @@ def cases(tier, seed):
         M = len(case["cfg"]["machines"])
         n = sum(len(case["wfs"][o["wf"]]["nodes"])
                 for o in case["cfg"]["obs"])
-        mode = static_mode if M ** n <= 64 else "diag"
+        mode = static_mode if M ** n <= 32 else "diag"
         return common.shipped(case, lvl, mode)
     for sc, c in common.add_algs(base, shipped):
         c = dict(c)
